@@ -206,6 +206,7 @@ class Executor(object):
         self.heavy2_ids = set() # further bulky requires clauses, dropped only where hints['slice_more'] matches
         self.noraise_ids = set()    # "the callee did not raise" facts (bulky negated raise conditions); cut lemmas
                                     # named by hints['slice_noraise'] are proved without them
+        self.assumed_called = {}    # assumed (unverified) callee contracts this function's proof uses
         self.schema_ids = set() # second-order schemas among the requires: never given to the solver as they are
                                 # (no usable trigger); only their syntactic instances made by cut lemmas are
 
